@@ -339,7 +339,7 @@ func TestC05_Vectors(t *testing.T) {
 // TestC05_Decorated samples decorations (methods, server errors, out-of-range statuses).
 func TestC05_Decorated(t *testing.T) {
 	rec := stats.New(t, "C05", rule)
-	rp.Check(t, 6000, 120000, func(rt *rapid.T) {
+	rp.Check(t, 6000, 2500000, func(rt *rapid.T) {
 		n := rapid.IntRange(1, 4).Draw(rt, "len")
 		c := Case{Iface: rp.Pick(rt, "iface", "validator", "client"), Action: rp.Pick(rt, "action", "enforce", "enforce", "log", "skip"),
 			Base: rp.Pick(rt, "base", "strict", "permissive", "audit"), Scheme: rp.Pick(rt, "scheme", "x509", "sa"),
